@@ -18,21 +18,26 @@ Qed.
    log as checkpoint, nothing stored *)
 Lemma subscribe_pack db colname col v req d0 :
   LogInv db -> In d0 (s_dts db) -> dd_col d0 = col -> p_key req = dd_key d0 -> p_type req = dd_type d0 ->
-  p_opt req = bit_subscribe -> p_ops req = [] -> sseq (p_cp req) = 0 -> alookup str_eqb v (dd_rw d0) = None ->
+  (p_opt req = bit_subscribe \/ p_opt req = bit_subscribe + bit_create) -> sseq (p_cp req) = 0 -> alookup str_eqb v (dd_rw d0) = None ->
   handle_pack db colname col v req =
   (mkSdb (s_cols db) (s_colctr db) (s_clients db)
          (upsert_dt (s_dts db) (set_end (set_client d0 false v (mkCp (dd_end d0) 0)) (dd_end d0))) (s_ops db),
    mkPpp (p_key req) (dd_duid d0) bit_subscribe (mkCp (dd_end d0) 0) (p_type req) (map od_op (get_ops db (dd_duid d0) 1)) None,
    []).
 Proof.
-  intros Hinv Hin Hcol Hkey Hty Hopt Hops Hs Hnew. pose proof Hinv as [Hnd Hdt Horph Hk].
-  unfold handle_pack, handle_pack_f; fold finish_pack. rewrite Hopt.
-  change (has bit_subscribe bit_readonly) with false. cbn [andb].
-  unfold evaluate. rewrite Hopt. change (has bit_subscribe bit_create) with false. change (has bit_subscribe bit_subscribe) with true. cbn [orb].
+  intros Hinv Hin Hcol Hkey Hty Hopt Hs Hnew. pose proof Hinv as [Hnd Hdt Horph Hk].
+  assert (B1 : has (p_opt req) bit_readonly = false) by (destruct Hopt as [-> | ->]; reflexivity).
+  assert (B2 : has (p_opt req) bit_create || has (p_opt req) bit_subscribe = true) by (destruct Hopt as [-> | ->]; reflexivity).
+  assert (B3 : has (p_opt req) bit_subscribe = true) by (destruct Hopt as [-> | ->]; reflexivity).
+  assert (B4 : has (p_opt req) bit_snapshot = false) by (destruct Hopt as [-> | ->]; reflexivity).
+  unfold handle_pack, handle_pack_f; fold finish_pack. rewrite B1. cbn [andb].
+  unfold evaluate. rewrite B2.
   rewrite Hkey, <- Hcol, (find_key_of_in db d0 Hinv Hin), Hty, N.eqb_refl. cbn [clients_of]. rewrite Hnew.
-  unfold decide. rewrite Hopt. change (has bit_subscribe bit_create) with false. change (has bit_subscribe bit_subscribe) with true. cbn [andb].
+  assert (Ed : decide (dd_col d0) req NotSubscribed (Some d0) = ASubscribe).
+  { unfold decide. rewrite B3. destruct (has (p_opt req) bit_create); reflexivity. }
+  rewrite Ed.
   rewrite finish_pack_plain. unfold finish_plain. cbn [clients_of]. rewrite Hnew. cbn [cseq push_ops].
-  rewrite Hopt. change (has bit_subscribe bit_snapshot) with false. cbv iota.
+  rewrite ?B1, ?B4. cbv iota.
   assert (Hlog : map od_sseq (ops_of (s_ops db) (dd_duid d0)) = nseq 1 (N.to_nat (dd_end d0))) by (apply (di_sseq _ _ (Hdt d0 Hin))).
   rewrite (pulled_within db (dd_duid d0) (dd_end d0) (sseq (p_cp req) + 1) Hlog). rewrite Hs. cbn [N.add insert_ops].
   assert (Ecp : match rev (get_ops db (dd_duid d0) 1) with
@@ -89,27 +94,37 @@ Section Join.
   Qed.
 
   (* ---------- the system with late subscribers ---------- *)
-  Inductive jev := JBase (ev : lev) | JJoin (v Dv : str).
+  (* a client joins: Subscribe(key) ([orc] = None), or SubscribeOrCreate(key) carrying its own snapshot operation
+     ([orc] = Some o1) — the datatype exists, so the server subscribes it and ignores the operation *)
+  Inductive jev := JBase (ev : lev) | JJoin (v Dv : str) (orc : option op).
+
+  Definition join_req (Dv : str) (orc : option op) : ppp :=
+    match orc with
+    | None => mkPpp key Dv bit_subscribe (mkCp 0 0) ty [] None
+    | Some o1 => mkPpp key Dv (bit_subscribe + bit_create) (mkCp 0 1) ty [o1] None
+    end.
+  Definition own_snapshot (v : str) (orc : option op) : bool :=
+    match orc with None => true | Some o1 => str_eqb (o_cuid (op_id o1)) v end.
 
   Definition jstep (st : lsys) (ev : jev) : lsys :=
     match ev with
     | JBase ev => lstep' st ev
-    | JJoin v Dv =>
+    | JJoin v Dv orc =>
         let b := l_base st in
-        if existsb (fun c => str_eqb (pc_cuid c) v) (ps_cl b) then st else
+        if existsb (fun c => str_eqb (pc_cuid c) v) (ps_cl b) || negb (own_snapshot v orc) then st else
         match find_dt (ps_db b) D with
         | Some d0 =>
             match alookup str_eqb v (dd_rw d0) with
             | Some _ => st
             | None =>
-                (* Subscribe(key): the client's own provisional DUID, no operations, checkpoint (0,0) *)
-                let req := mkPpp key Dv bit_subscribe (mkCp 0 0) ty [] None in
+                (* the client's own provisional DUID, checkpoint (0,0) — (0,1) and the snapshot operation when it would also create *)
+                let req := join_req Dv orc in
                 let '(db', resp, _) := handle_pack (ps_db b) colname col v req in
                 match p_err resp with
                 | Some _ => mkLs (mkPs db' (ps_cl b)) (l_fly st)
                 | None =>
-                    (* ApplyPushPullPack, subscribe branch: the datatype is reset, its checkpoint set to the answer's sseq
-                       minus the number of operations, every operation of the answer is a candidate *)
+                    (* ApplyPushPullPack, subscribe branch: the datatype is reset (its buffer emptied), its checkpoint set to the
+                       answer's sseq minus the number of operations, every operation of the answer is a candidate *)
                     let c0 := mkCp (u64sub (sseq (p_cp resp)) (N.of_nat (length (p_ops resp)))) (cseq (p_cp resp)) in
                     match incoming v true c0 resp with
                     | Some ops =>
@@ -164,17 +179,22 @@ Section Join.
     replace (length (p_ops resp) - Z.to_nat (Z.max 0 (Z.of_N e - Z.of_N 0 - (Z.of_N 0 - Z.of_N 0))))%nat with 0%nat by lia. reflexivity.
   Qed.
 
-  Lemma join_inv st v Dv : JInv st -> JInv (jstep st (JJoin v Dv)).
+  Lemma join_inv st v Dv orc : JInv st -> JInv (jstep st (JJoin v Dv orc)).
   Proof.
     intros HJ. pose proof HJ as [HL [HK HB]]. pose proof HL as [HP HF]. cbn [jstep].
-    destruct (existsb (fun c => str_eqb (pc_cuid c) v) (ps_cl (l_base st))) eqn:Eex; [exact HJ|].
+    destruct (existsb (fun c => str_eqb (pc_cuid c) v) (ps_cl (l_base st))) eqn:Eex; [exact HJ|]. cbn [orb].
+    destruct (own_snapshot v orc) eqn:Eown; [cbn [negb]|exact HJ].
     pose proof HP as [Hinv [Hci [Hnd [d0 [Hin [Hd [Hcol Hcl]]]]]]]. pose proof Hinv as [Hndd Hdt _ _].
     assert (Ef : find_dt (ps_db (l_base st)) D = Some d0) by (rewrite <- Hd; apply find_dt_of_in; assumption). rewrite Ef.
     destruct (alookup str_eqb v (dd_rw d0)) as [x|] eqn:Enew; [exact HJ|].
     destruct (HK d0 Hin Hd) as [Hkey Hty]. destruct (HF d0 Hin Hd) as [Hbig Hfl].
     set (db := ps_db (l_base st)) in *. set (e := dd_end d0) in *.
-    set (req := mkPpp key Dv bit_subscribe (mkCp 0 0) ty [] None).
-    pose proof (subscribe_pack db colname col v req d0 Hinv Hin Hcol (eq_sym Hkey) (eq_sym Hty) eq_refl eq_refl eq_refl Enew) as SP.
+    set (req := join_req Dv orc).
+    assert (Rk : p_key req = key) by (unfold req, join_req; destruct orc; reflexivity).
+    assert (Rt : p_type req = ty) by (unfold req, join_req; destruct orc; reflexivity).
+    assert (Ro : p_opt req = bit_subscribe \/ p_opt req = bit_subscribe + bit_create) by (unfold req, join_req; destruct orc; auto).
+    assert (Rs : sseq (p_cp req) = 0) by (unfold req, join_req; destruct orc; reflexivity).
+    pose proof (subscribe_pack db colname col v req d0 Hinv Hin Hcol (eq_trans Rk (eq_sym Hkey)) (eq_trans Rt (eq_sym Hty)) Ro Rs Enew) as SP.
     fold e in SP. rewrite Hd in SP. rewrite SP. cbn [p_err p_cp p_ops sseq cseq].
     destruct (logops_len D db d0 Hinv Hin Hd) as [Hseq Hlen]. fold e in Hseq, Hlen.
     assert (Eall : map od_op (get_ops db D 1) = logops D db).
@@ -191,7 +211,8 @@ Section Join.
     set (db' := mkSdb (s_cols db) (s_colctr db) (s_clients db) (upsert_dt (s_dts db) d1) (s_ops db)).
     set (cnew := mkPc v e 0 [] L).
     (* the store *)
-    assert (Hhon : honest_pack v req) by constructor.
+    assert (Hhon : honest_pack v req).
+    { unfold honest_pack, req, join_req. destruct orc as [o1|]; cbn [p_ops]; [|constructor]. constructor; [|constructor]. apply str_eqb_eq. exact Eown. }
     pose proof (handle_pack_spec db colname col v req Hinv) as HS. rewrite SP in HS. destruct HS as [Hinv' _].
     pose proof (handle_pack_client db colname col v req Hinv Hci Hhon) as HC. rewrite SP in HC. cbn [fst] in HC.
     assert (HLL : logops D db' = L) by reflexivity.
@@ -230,7 +251,7 @@ Section Join.
   Qed.
 
   Theorem jstep_inv st ev : JInv st -> JInv (jstep st ev).
-  Proof. destruct ev as [ev|v Dv]; [apply jbase_inv|apply join_inv]. Qed.
+  Proof. destruct ev as [ev|v Dv orc]; [apply jbase_inv|apply join_inv]. Qed.
 
   Definition jrun (st : lsys) (evs : list jev) : lsys := fold_left jstep evs st.
   Theorem jrun_inv evs : forall st, JInv st -> JInv (jrun st evs).
